@@ -152,9 +152,12 @@ def main():
                 report.append(f'{pid}: {key} left out: contract/engine error')
                 continue
             obls = list(fr.get('obligations') or [])
+            number(obls)
             ref = funcs.get(key + '#refines')
             if ref:
-                obls += ref.get('obligations') or []
+                ro = list(ref.get('obligations') or [])
+                number(ro)
+                obls += ro
             kinds = cfg.get('kinds')
             rel = [o for o in obls if not kinds or o['kind'] in kinds]
             if not rel:
@@ -168,6 +171,8 @@ def main():
                     continue
                 if o['status'] != 'unsat' or o['s'] > SLOW:
                     k = o['func'] + '/' + o['kind'] + '|' + o['desc']
+                    if pid in FINE and o['_n'] > 1:
+                        k += '||%d/%d' % (o['_i'], o['_n'])      # this occurrence only (same clause text at several places)
                     if k not in sk:
                         sk.append(k)
                 else:
@@ -191,6 +196,23 @@ def main():
     out['_lemmas'] = {'title': 'lemma table (skip lists for lemmas pulled in by use clauses)', 'functions': lemmas, 'trusted_base': [], 'note': ''}
     json.dump(out, open(os.path.join(VERIF, 'spec', 'properties.json'), 'w'), indent=1)
     print('\n'.join(report))
+
+
+FINE = set(x for x in os.environ.get('PROPS_FINE', 'C13,C15,C16,C17').split(',') if x)
+
+
+def number(obls):
+    """occurrence index of each obligation among those of the same function result with the same kind and clause text"""
+    n = {}
+    for o in obls:
+        k = (o['func'], o['kind'], o['desc'])
+        n[k] = n.get(k, 0) + 1
+    seen = {}
+    for o in obls:
+        k = (o['func'], o['kind'], o['desc'])
+        o['_i'] = seen.get(k, 0)
+        o['_n'] = n[k]
+        seen[k] = o['_i'] + 1
 
 
 def skips(fr, kf):
